@@ -154,6 +154,19 @@ SameCases(e1) ==
   {[op |-> "OpBF", tag |-> "bf", e1 |-> e1, e2 |-> p[2], a |-> OneVar(S, o), b |-> OneVar(S, o), fs |-> <<>>, fshare |-> 1, sameobj |-> so] :
      p \in {q \in SamePairs : q[1] = e1}, S \in SupportsOn(E4), o \in 0..2, so \in {0, 1}}
 
+\* very high orders ("every n, every spline order"): derivatives, position operator and identity on splines of
+\* order 7 .. 24, incl. Dx<8..12> where (i+n)!/i! passes 2^32.  Coefficients are small multiples of 2^-20 so that
+\* the exact results stay inside TLC's integers; these cases are judged on the contract only (Level I forms the
+\* falling factorial as an integer first).
+HiC(n, o) == [r \in 1..n |-> [k \in 1..(o + 1) |-> R(((r + k) % 3) + 1, 1048576)]]
+HiLowN == {7, 8, 12, 16, 20, 21, 22, 24}
+HiCombos == {<<Dn(1), o>> : o \in HiLowN} \cup {<<Dn(2), o>> : o \in HiLowN} \cup {<<Id, o>> : o \in {7, 21, 24}} \cup {<<Xn(1), o>> : o \in {7, 12, 21, 24}}
+            \cup {<<Dn(8), 17>>, <<Dn(8), 20>>, <<Dn(9), 15>>, <<Dn(10), 14>>, <<Dn(10), 15>>, <<Dn(12), 13>>, <<Dn(12), 16>>, <<Dn(12), 7>>}
+HiExprs == {c[1] : c \in HiCombos}
+HiCases(e) ==
+  {[op |-> "OpApply", tag |-> "hi", ast |-> e, a |-> SplOn(S, c[2], IF SupNInt(S) = 0 THEN <<>> ELSE HiC(SupNInt(S), c[2])), fs |-> <<>>, fshare |-> 1] :
+     c \in {x \in HiCombos : x[1] = e}, S \in {SupWhole(Z4), Sup(E4, 1, 3), SupEmptyOn(E4)}}
+
 \* size sweep (Domains!SweepGrid): operator application and forms on supports with every number of intervals
 SweepExprs == {Id, Dn(1), Xn(1), SplLeaf, B2("Sum", Dn(2), Xn(1))}
 SweepFactor(g, e) == IF HasSpl(e) THEN <<OneVar(IF Len(g) >= 4 THEN Sup(g, 1, Len(g) - 1) ELSE SupWhole(g), VoOf(e))>> ELSE <<>>
@@ -167,12 +180,13 @@ SweepCasesN(e, n) ==
 SweepSeq == SetToSeq(SweepExprs \X SweepSizes)
 
 CasesFor(e) ==
+  (IF e \in HiExprs THEN HiCases(e) ELSE {}) \cup
   (IF e \in SameFirst THEN SameCases(e) ELSE {}) \cup
   (IF e \in Prims THEN PrimCases(e) ELSE {})
   \cup (IF e \in Exprs THEN ExprCases(e) ELSE {})
   \cup (IF e \in BFOps THEN BFCases(e) ELSE {})
 
-Init == \/ \E e \in Prims \cup Exprs \cup BFOps \cup SameFirst : st = [ph |-> 0, e |-> e, sw |-> 0]
+Init == \/ \E e \in Prims \cup Exprs \cup BFOps \cup SameFirst \cup HiExprs : st = [ph |-> 0, e |-> e, sw |-> 0]
         \/ \E i \in DOMAIN SweepSeq : st = [ph |-> 0, e |-> SweepSeq[i][1], sw |-> i]
 Next == /\ st.ph = 0
         /\ \E c \in (IF st.sw > 0 THEN SweepCasesN(st.e, SweepSeq[st.sw][2]) ELSE CasesFor(st.e)) : st' = [ph |-> 1, c |-> c]
@@ -184,7 +198,7 @@ Emit == (st'.ph = 1) => CSVWrite("%1$s", <<ToJson(st'.c)>>, IF st.sw > 0 THEN Ou
 -----------------------------------------------------------------------------
 Native(c) == \A i \in DOMAIN c.fs : c.fs[i].g = c.a.g
 
-ApplyOK == st.ph = 1 /\ st.c.op = "OpApply" /\ Native(st.c) =>
+ApplyOK == st.ph = 1 /\ st.c.op = "OpApply" /\ Native(st.c) /\ st.c.tag # "hi" =>
   LET c == st.c IN
   /\ ApplyPost(c.ast, c.a, c.fs, ApplyI(c.ast, c.a, c.fs))
   /\ SizeOK(c.ast, c.a, c.fs)
